@@ -111,3 +111,10 @@ CHECKS["C19"] = dict(
     note="Requests the HTTP server itself rejects before the handler are judged leniently (back-end untouched only). Targets whose readings disagree are never required to be proxied.",
     ref="2/C19",
 )
+CHECKS["C13"] = dict(
+    level="fault_enumeration",
+    technique="runtime monitoring: real filterstorage.Default + hashprefix filters against scripted raw-TCP HTTP servers with per-request fault scripts (20 fault kinds x 10 targets x round positions), version-revealing list contents; child processes killed by stalled-transfer SIGKILL, strace-injected SIGKILL at renameat/fsync/utimensat/unlinkat/openat/write/close, and seeded random kills; cache directory and restart-with-server-down checked after every round/kill",
+    text="After each fault round the faulted list must behave as its previous complete version, other lists as previous or new, valid entries of a partially invalid index applied, and every cache file must hold bytes of a complete version ever served for it; after each kill every cache file is previous-or-new complete and a new process starts from the cache alone.",
+    note="A body transferred completely with status 200 counts as a complete version even if a content-level validator later rejects it (restart usability is not asserted then; counted in evidence). Crash points at syscall and transfer-chunk granularity; no power-loss semantics (missing fsync invisible).",
+    ref="2/C13",
+)
